@@ -320,32 +320,44 @@ SPACES = ('abus', 'cbus', 'buf')
 def run(ctx):
     thorough = not ctx.quick
     sfx = '_thorough' if thorough else ''
-    # 1. design: L1 laws; L2 (the code's algorithm, repaired _find_next) refines L1 on every transition
-    r = ctx.model_check('Alloc', 'Alloc%s.cfg' % sfx, require_cover=('Alloc', 'Free'), timeout=900)
-    ctx.expect_ok(r, 'Alloc L1')
-    r = ctx.model_check('AllocImpl', 'AllocImpl.cfg', require_cover=('Alloc', 'Free'), timeout=900,
-                        label='depth-bounded, history variables, StepRefines as invariant')
-    ctx.expect_ok(r, 'AllocImpl refines Alloc (bounded)')
-    # (thorough: TLC's -coverage triples the time of the big run; the two runs above are the vacuity guard)
-    r = ctx.model_check('AllocImpl', 'AllocImpl%s.cfg' % ('_thorough' if thorough else '_full'),
-                        require_cover=() if thorough else ('Alloc', 'Free'), timeout=1500,
-                        label='complete reachable state space (VIEW = implementation state)')
-    ctx.expect_ok(r, 'AllocImpl refines Alloc (complete)')
-    ctx.cov['impl_model_complete_states'] = r.distinct
-    # sensitivity of the refinement check itself: the transcription of the PINNED _find_next must fail it
+    # 1. design: L1 laws; L2 (the code's algorithm, repaired _find_next) refines L1 on every transition.
+    #    Independent TLC runs go side by side (three threads; runs of one module stay in one thread: shared metadir name).
+    from concurrent.futures import ThreadPoolExecutor
     from harness.tlc import TlcError
-    try:
-        r = ctx.model_check('AllocImpl', 'AllocImpl_pinned.cfg', timeout=600, workers=4, label='pinned _find_next (must fail)')
-        failed = not r.ok
-    except TlcError as e:
-        failed = 'StepRefines' in str(e)
-    if not failed:
-        raise MachineryError('AllocImpl with the pinned _find_next refines Alloc: the refinement check is vacuous')
-    r = ctx.model_check('AllocClients', 'AllocClients%s.cfg' % sfx, require_cover=('Alloc1', 'Alloc2', 'Free1', 'Free2'), timeout=900,
-                        label='two clients of one server: (local option, reported logins, client id) enumerated')
-    ctx.expect_ok(r, 'AllocClients')
-    r = ctx.model_check('NodeIds', 'NodeIds.cfg', require_cover=('Alloc',), timeout=600)
-    ctx.expect_ok(r, 'NodeIds')
+
+    def t_alloc():
+        r = ctx.model_check('Alloc', 'Alloc%s.cfg' % sfx, require_cover=('Alloc', 'Free'), timeout=900, workers=6)
+        ctx.expect_ok(r, 'Alloc L1')
+        r = ctx.model_check('NodeIds', 'NodeIds.cfg', require_cover=('Alloc',), timeout=600, workers=2)
+        ctx.expect_ok(r, 'NodeIds')
+
+    def t_impl():
+        r = ctx.model_check('AllocImpl', 'AllocImpl.cfg', require_cover=('Alloc', 'Free'), timeout=900, workers=6,
+                            label='depth-bounded, history variables, StepRefines as invariant')
+        ctx.expect_ok(r, 'AllocImpl refines Alloc (bounded)')
+        # (thorough: TLC's -coverage triples the time of the big run; the run above is the vacuity guard)
+        r = ctx.model_check('AllocImpl', 'AllocImpl%s.cfg' % ('_thorough' if thorough else '_full'),
+                            require_cover=() if thorough else ('Alloc', 'Free'), timeout=1500, workers=8,
+                            label='complete reachable state space (VIEW = implementation state)')
+        ctx.expect_ok(r, 'AllocImpl refines Alloc (complete)')
+        ctx.cov['impl_model_complete_states'] = r.distinct
+        # sensitivity of the refinement check itself: the transcription of the PINNED _find_next must fail it
+        try:
+            r = ctx.model_check('AllocImpl', 'AllocImpl_pinned.cfg', timeout=600, workers=4, label='pinned _find_next (must fail)')
+            failed = not r.ok
+        except TlcError as e:
+            failed = 'StepRefines' in str(e)
+        if not failed:
+            raise MachineryError('AllocImpl with the pinned _find_next refines Alloc: the refinement check is vacuous')
+
+    def t_clients():
+        r = ctx.model_check('AllocClients', 'AllocClients%s.cfg' % sfx, require_cover=('Alloc1', 'Alloc2', 'Free1', 'Free2'),
+                            timeout=900, workers=6,
+                            label='two clients of one server: (local option, reported logins, client id) enumerated')
+        ctx.expect_ok(r, 'AllocClients')
+
+    ex = ThreadPoolExecutor(max_workers=3)
+    model_runs = [ex.submit(t) for t in (t_alloc, t_impl, t_clients)]       # joined at the end of run()
 
     # 2. C->S, exhaustive: every history of `depth` calls, every tie-break, raw allocators and through Server
     cases = []
@@ -439,6 +451,9 @@ def run(ctx):
     ctx.cov['evaluations'] += len(it)
     ctx.sample(dict(case=ic[1], ids=it[1]['ids'][:6]))
 
+    for f in model_runs:
+        f.result()
+    ex.shutdown()
     ctx.cov['rule'] = ('all histories of up to %d calls over {alloc 1..3(4), free of the k-th earlier result (incl. double free, '
                        'free of a failed alloc), free(None)} x every tie-break on raw ContiguousBlockAllocator(size,pos,addr_offset) '
                        'for sizes 4-8, pos 0-2, offsets 0/size/2*size/3*size; fill-then-fragment family (all sequences of %d '
